@@ -105,10 +105,15 @@ def rand_apitem(rng):
     pfx = rng.choice([0, 1, 8, 9, 16, size * 8 - 1, size * 8, rng.randint(0, size * 8)])
     return {'fam': fam, 'pfx': pfx, 'neg': rng.randint(0, 1), 'addr': prefix_addr(rng, size, pfx)}
 
+# alpn ids: plain, empty, the two characters the presentation form escapes (`,` and `\\`) after ASCII and after multi-octet
+# characters (an escaper that slices by character index instead of octet offset), at the start and at the end, maximal length
+ALPN_IDS = [b'h2', b'h3', b'http/1.1', b'', b'f\\oo,bar', b'x' * 255, b'\xc3\xa9,', b'\xc3\xa9\\', b',\xc3\xa9', b'\xe6\x97\xa5\xe6\x9c\xac,\xe8\xaa\x9e\\x',
+            b'\xf0\x9f\x98\x80,\xf0\x9f\x98\x80', b',', b'\\', b'a,', b'\xc3\xa9' * 127 + b',']
+
 def rand_param(rng, key=None):
     k = key if key is not None else rng.choice([0, 1, 2, 3, 4, 5, 6, 7, 100, 65534, 65535])
     if k == 0: return ('mandatory', [rng.choice([1, 2, 3, 4, 5, 6, 7, 65534]) for _ in range(rng.randint(0, 4))])
-    if k == 1: return ('alpn', [rng.choice([b'h2', b'h3', b'http/1.1', b'', b'f\\oo,bar', b'x' * 255]) for _ in range(rng.randint(0, 3))])
+    if k == 1: return ('alpn', [rng.choice(ALPN_IDS) for _ in range(rng.randint(0, 3))])
     if k == 2: return ('nodefaultalpn',)
     if k == 3: return ('port', bnum(rng, 2))
     if k == 4: return ('ipv4hint', [rbytes(rng, 4) for _ in range(rng.randint(0, 3))])
@@ -257,7 +262,7 @@ def boundary_sweep():
             out.append({'ty': APL, 'name': owner, 'ttl': 60, 'cls': 1, 'items': [a, b]})
     out.append({'ty': APL, 'name': owner, 'ttl': 60, 'cls': 1, 'items': items})
     # SVCB / HTTPS
-    params = [('mandatory', [1]), ('mandatory', [1, 3, 4, 6]), ('alpn', [b'h2']), ('alpn', [b'h2', b'h3', b'x' * 255]), ('nodefaultalpn',), ('port', 0), ('port', 65535),
+    params = [('mandatory', [1]), ('mandatory', [1, 3, 4, 6]), ('alpn', [b'h2']), ('alpn', [b'h2', b'h3', b'x' * 255]), ('alpn', [b'\xc3\xa9,', b'\xc3\xa9\\', b'\xe6\x97\xa5,\\']), ('nodefaultalpn',), ('port', 0), ('port', 65535),
               ('ipv4hint', [b'\1\2\3\4']), ('ipv4hint', [bytes(4), b'\xff' * 4, b'\1\2\3\4']), ('ech', b''), ('ech', b'\0'), ('ech', bytes(range(200))),
               ('ipv6hint', [bytes(range(16))]), ('ipv6hint', [bytes(16), b'\xff' * 16]), ('key', 7, b''), ('key', 7, b'z'), ('key', 65534, bytes(300)), ('key65535',)]
     for ty in (SVCB, HTTPS):
